@@ -1330,3 +1330,24 @@ V("r8-c20-power-in-place", "C20", "fire", NO, "def normal(mean=0, var=1):\n    r
   rule="OWN.normal", what="`var **= 0.5` rewrites a 0-d array argument in place")
 V("r8-c19-allclose-constant-response", "C19", "fire", SE, "                    Y = pd.DataFrame(self._data[k][:, i])\n", "                    if np.allclose(self._data[k][:, i], self._data[k][0, i]):\n                        continue\n                    Y = pd.DataFrame(self._data[k][:, i])\n",
   rule="TRAP.approx-branch", what="a response with a large offset counts as constant and gets no forest", accept_inconclusive=True)
+
+# ------------------------------------------------------------------------------- C17, peeled last fold (refactor round)
+_C17_LOOP = "        for i, ratio in enumerate(ratios):\n            if i < n_folds - 1:\n                fold_size = round(n * ratio)\n                fold_sample = sample[start:start + fold_size]\n                start += fold_size\n            else:\n                fold_sample = sample[start::]\n            folds[i].append(fold_sample)\n"
+
+
+def _c17_peeled(head, dest="folds[i]", size="round(n * ratio)", adv="            start += fold_size\n", last="folds[n_folds - 1]", rem="sample[start:]"):
+    return "%s            fold_size = %s\n            %s.append(sample[start:start + fold_size])\n%s        %s.append(%s)\n" % (head, size, dest, adv, last, rem)
+
+
+V("rf-c17-peeled-zip-range", "C17", "silent", UT, _C17_LOOP, _c17_peeled("        for i, ratio in zip(range(n_folds - 1), ratios):\n"), what="last fold peeled off the loop")
+V("rf-c17-peeled-range", "C17", "silent", UT, _C17_LOOP, _c17_peeled("        for i in range(n_folds - 1):\n", size="round(n * ratios[i])"), what="peeled, index form")
+V("rf-c17-peeled-enumerate-cut", "C17", "silent", UT, _C17_LOOP, _c17_peeled("        for i, ratio in enumerate(ratios[:-1]):\n"), what="peeled, enumerate(ratios[:-1])")
+V("rf-c17-peeled-zip-lists", "C17", "silent", UT, _C17_LOOP, _c17_peeled("        for fold, ratio in zip(folds[:-1], ratios):\n", dest="fold", last="folds[-1]"),
+  more=[(UT, "    folds = dict((i, []) for i in range(n_folds))\n", "    folds = [[] for _ in range(n_folds)]\n"), (UT, "    return list(folds.values())\n", "    return folds\n")], what="peeled, zip over the fold lists")
+V("rf-c17-peeled-two-short", "C17", "fire", UT, _C17_LOOP, _c17_peeled("        for i, ratio in zip(range(n_folds - 2), ratios):\n"), rule="LAST", what="peeled loop leaves out two folds")
+V("rf-c17-peeled-wrong-last", "C17", "fire", UT, _C17_LOOP, _c17_peeled("        for i, ratio in zip(range(n_folds - 1), ratios):\n", last="folds[0]"), rule="FLOW.destination", what="remainder goes to the first fold")
+V("rf-c17-peeled-no-advance", "C17", "fire", UT, _C17_LOOP, _c17_peeled("        for i, ratio in zip(range(n_folds - 1), ratios):\n", adv=""), rule="CONTIG", what="cursor never advances")
+V("rf-c17-peeled-rem-from-zero", "C17", "fire", UT, _C17_LOOP, _c17_peeled("        for i, ratio in zip(range(n_folds - 1), ratios):\n", rem="sample[0:]"), rule="CONTIG", what="remainder restarts at 0")
+V("rf-c17-peeled-rem-unshuffled", "C17", "fire", UT, _C17_LOOP, _c17_peeled("        for i, ratio in zip(range(n_folds - 1), ratios):\n", rem="data[0][start:]"), rule=None, what="remainder from another array")
+V("rf-c17-peeled-rem-in-loop", "C17", "fire", UT, _C17_LOOP, _c17_peeled("        for i, ratio in zip(range(n_folds - 1), ratios):\n").replace("        folds[n_folds - 1].append", "            folds[n_folds - 1].append"), rule=None, what="remainder appended in every iteration")
+V("rf-c17-peeled-dict-minus-one", "C17", "fire", UT, _C17_LOOP, _c17_peeled("        for i, ratio in zip(range(n_folds - 1), ratios):\n", last="folds[-1]"), rule="FLOW.destination", what="key -1 of a dict of folds: KeyError")
